@@ -8,6 +8,9 @@ real RTF without trusting rtflite's layout:
   subline_by values  SB{name}
   header texts       HD{k}c{j}           title TTL{k}; subline SUBLN; footnote FTNOTE; source SRCTXT
   page header/footer PGHDR / PGFTR
+Documents with edge column NAMES (`edge_names`; '*', '^x$', '', …) carry the rows of names an auto-populated header
+shows in info['name_headers'] (and the name → sentinel-role map in info['colnames']); `classify` recognises exactly
+those rows as column headers, everything else as above.
 """
 from __future__ import annotations
 
@@ -453,6 +456,178 @@ def aligned_keys(rng, spec, info, p_edge=0.5):
     info["labels"] = sorted(set(labels))
 
 
+# ----------------------------------------------------------------------------- edge column names
+# Column NAMES the sentinel scheme above never draws (it uses COL{j} / PB{l} / SL{l} only): a frame column may be called
+# anything, and what a table shows must not depend on it.  The family holds the names that some layer could read as
+# something else than a plain name: polars selector syntax ('*' = every column, '^…$' = a regular expression over the
+# names), names that are prefixes / extensions / regexes / case variants of OTHER names of the same frame, the empty
+# string and blanks, non-ASCII, names equal to a cell value, to a group value or to an attribute / metadata-column
+# name, numeric-looking and very long names, punctuation, conversion tokens.  `raw-rtf` names (with \ { }) are drawn
+# only where no header shows the names (a header text is RTF-active like any text).
+
+NAME_KINDS = {
+    "selector-all": ["*", "^.*$", "^.+$", "^(.*)$", "^.*"],
+    "selector-regex": ["^x$", "^$", "^COL.*$", "^PB.*$", "^SL0$", "^PB0|SL0$", "^[A-Z]+0$", "^r.*$", "^G0.$", "^COL[0-9]$",
+                       "^S.COL0$", "^.$", "^..$"],
+    "empty": [""],
+    "blank": [" ", "  ", "   "],
+    "non-ascii": ["é", "Größe", "列名", "αβγ", "naïve col", "ÿ", "€ amount", "😀", "Ünïcödé"],
+    "attr-name": ["text_font", "page_by", "subline_by", "group_by", "col_rel_width", "text_convert", "page", "row_index",
+                  "index", "nrow", "data_rows", "pageby_header", "literal", "columns", "df", "height", "width", "len",
+                  "count", "__index__", "None", "value", "name", "text"],
+    "numeric": ["0", "1", "-1", "1.5", "007", "1e3", "0.0", "True", "nan", "2", "10"],
+    "punct": ["a b", "a,b", "a.b", "a:b", "a|b", "$", "`a`", 'col("a")', "#", "%", "a;b", "[0]", "(x)", "a'b", 'a"b',
+              "?", "+", ".", "..", "a/b", "-", "--", "-----", "a=b", "@", "~", "!", "&", "a: b", "a | b"],
+    "conv-token": ["a_b", "x^2", "a>=b", "<=", "^", "_", "^_", "ALT_SI", "p<=0.05"],
+    "raw-rtf": ["^\\d+$", "a\\b", "{x}", "^a{2}$", "\\", "^\\w+$", "}", "\\par"],
+}
+_NAME_WEIGHTS = (["selector-all"] * 3 + ["selector-regex"] * 3 + ["regex-of-other"] * 4 + ["prefix-of-other"] * 2 +
+                 ["extension-of-other"] * 2 + ["case-of-other"] * 2 + ["empty"] * 2 + ["blank"] * 2 + ["non-ascii"] * 2 +
+                 ["cell-value"] * 2 + ["attr-name"] * 2 + ["numeric"] * 2 + ["long"] * 2 + ["punct"] * 2 +
+                 ["conv-token"] * 1 + ["raw-rtf"] * 2)
+
+
+def draw_name(rng, others, cell_values=(), raw_ok=False, long_max=300):
+    """(kind, name) of the edge family for one column; `others` = the names of the other columns of the same frame
+    (the relational kinds are built from them), `cell_values` = texts some OTHER column of the frame holds.
+    The caller checks distinctness."""
+    for _ in range(30):
+        kind = rng.choice(_NAME_WEIGHTS)
+        o = rng.choice(others) if others else None
+        if kind == "raw-rtf" and not raw_ok:
+            continue
+        if kind == "regex-of-other":
+            if not o:
+                continue
+            k = rng.randint(1, len(o))
+            return kind, rng.choice(["^" + o + "$", "^" + o[:k] + ".*$", "^.*" + o[-k:] + "$", "^(" + o + ")$"])
+        if kind == "prefix-of-other":
+            if not o or len(o) < 2:
+                continue
+            return kind, o[: rng.randint(1, len(o) - 1)]
+        if kind == "extension-of-other":
+            if o is None:
+                continue
+            return kind, o + rng.choice(["0", " ", "x", "_", ".", "$"])
+        if kind == "case-of-other":
+            if not o or o.swapcase() == o:
+                continue
+            return kind, rng.choice([o.lower(), o.upper(), o.swapcase(), o.capitalize()])
+        if kind == "cell-value":
+            if not cell_values:
+                continue
+            return kind, rng.choice(list(cell_values))
+        if kind == "long":
+            m = rng.randint(60, long_max)
+            s = rng.choice(["N" * m, ("long column name " * (m // 17 + 1))[:m].rstrip(), "^" + "x" * m + "$"])
+            return kind, s
+        return kind, rng.choice(NAME_KINDS[kind])
+    return "punct", "a b"
+
+
+def _hnorm(t: str) -> str:
+    """a header text up to what text conversion does to it (^ _ dropped as super / subscript marks, >= <= replaced, a
+    blank added after the replaced sign): conversion of header texts is none of the layout family's business"""
+    return t.replace(">=", "≥").replace("<=", "≤").replace("^", "").replace("_", "").replace(" ", "")
+
+
+def is_name_header(texts, name_headers) -> bool:
+    """the row shows exactly the names of the displayed columns of (a section of) the document, in their order"""
+    return any(len(texts) == len(h) and all(_hnorm(t) == _hnorm(c) for t, c in zip(texts, h)) for h in name_headers)
+
+
+def edge_names(rng, spec, info, p=0.5, permute=False, fixed=None):
+    """Rename columns of a generated single-section document with members of the name family — data columns and
+    page_by / subline_by columns alike, one column up to all of them — consistently in the frame, in body.page_by /
+    subline_by and in `info` (hier, page_by, subline_by, displayed, removed).  With `permute` the frame's columns
+    (and every row) are put into a random order first, so that the key columns sit anywhere among the columns.
+    info['colnames'] maps every new name to the sentinel name (role) it replaces; info['name_headers'] lists the
+    rows of names an auto-populated column header shows (laygen.classify recognises exactly those as header rows —
+    before anything else, since a name may look like a data tag or a group value).  Call it LAST (the other
+    generators look at the sentinel names).  `fixed` = {sentinel name: new name} renames exactly those columns."""
+    cols = spec["df"]["cols"]
+    rows = spec["df"]["rows"]
+    body = spec["body"]
+    labels = info.setdefault("labels", [])
+    if permute and len(cols) > 1:
+        order = list(range(len(cols)))
+        rng.shuffle(order)
+        cols[:] = [cols[j] for j in order]
+        for r in rows:
+            r[:] = [r[j] for j in order]
+        labels.append("names-permuted-cols")
+    role = {c: ("subline" if c in (info["subline_by"] or []) else "page_by" if c in (info["page_by"] or []) else "data")
+            for c in cols}
+    removed = set(info["removed"])
+    shown = info["header_mode"] == "default"          # the auto-populated header shows the displayed names
+    chosen = [c for c in cols if rng.random() < p]
+    if rng.random() < 0.25:
+        chosen = list(cols)
+    if not chosen:
+        chosen = [rng.choice(cols)]
+    mapping = dict(fixed or {})
+    cell_named = False
+    for c in ([] if fixed is not None else chosen):
+        j = cols.index(c)
+        current = [mapping.get(x, x) for x in cols if x != c]
+        # a cell value of ANOTHER column (so that the header row of names can never be a data row)
+        cells = [] if cell_named else sorted({str(r[jj]) for r in rows[:6] for jj in range(len(cols)) if jj != j and r[jj]
+                                             is not None and isinstance(r[jj], str) and len(r[jj]) < 12})
+        for _ in range(20):
+            kind, name = draw_name(rng, current, cells, raw_ok=not shown,
+                                   long_max=300 if role[c] == "data" else 120)
+            if name not in current and name != c:
+                break
+        else:
+            continue
+        mapping[c] = name
+        cell_named = cell_named or kind == "cell-value"
+        where = role[c] + ("-removed" if c in removed else "")
+        labels.append(f"name:{kind}@{where}")
+        if kind in ("selector-all", "selector-regex", "regex-of-other") and c not in removed and removed:
+            labels.append("names:selector-like-displayed-with-removal:" + info["strategy"])
+    ren = lambda names: [mapping.get(c, c) for c in names] if names is not None else None   # noqa: E731
+    cols[:] = ren(cols)
+    for key in ("page_by", "subline_by"):
+        if body.get(key) is not None:
+            body[key] = ren(body[key])
+        info[key] = ren(info[key])
+    info["hier"] = ren(info["hier"])
+    info["removed"] = sorted(ren(info["removed"]))
+    info["displayed"] = [c for c in cols if c not in set(info["removed"])]
+    info["colnames"] = {new: old for old, new in mapping.items()}
+    info["name_headers"] = [list(info["displayed"])] if shown else []
+    labels += ["names-doc", "names-renamed:%s" % ("all" if len(mapping) == len(cols) else "some"),
+               "names-removal:%s" % ("yes" if removed else "no")]
+    info["labels"] = sorted(set(labels))
+
+
+def unname(case, name):
+    """the same single-section case with the edge column name `name` put back to the sentinel name it replaced
+    (None when that is not possible); used to simplify a failing document"""
+    import copy
+
+    info = case["info"]
+    old = (info.get("colnames") or {}).get(name)
+    cols = case["spec"]["df"]["cols"] if isinstance(case["spec"].get("df"), dict) else None
+    if old is None or cols is None or old in cols or name not in cols:
+        return None
+    c = copy.deepcopy(case)
+    spec, info = c["spec"], c["info"]
+    ren = lambda names: [old if x == name else x for x in names] if names is not None else None   # noqa: E731
+    spec["df"]["cols"] = ren(spec["df"]["cols"])
+    for key in ("page_by", "subline_by"):
+        if spec["body"].get(key) is not None:
+            spec["body"][key] = ren(spec["body"][key])
+        info[key] = ren(info[key])
+    for key in ("hier", "displayed"):
+        info[key] = ren(info[key])
+    info["removed"] = sorted(ren(info["removed"]))
+    del info["colnames"][name]
+    info["name_headers"] = [ren(h) for h in info.get("name_headers") or []]
+    return c
+
+
 def attr_at(value, r, c, default):
     """body attribute value at table position (r, c): scalar | per-column list | matrix (cyclic broadcast)"""
     if value is None:
@@ -545,6 +720,7 @@ def classify(doc: rtfread.Doc, info):
     # — every data row, explicit header, footnote and source of such a document IS tagged
     edge = bool(info.get("edge_keys"))
     spanning = bool(info.get("page_by")) and (not info.get("new_page") or info.get("pageby_row") != "column")
+    name_headers = info.get("name_headers")      # rows of column names an auto-populated header shows (edge names)
     for pno, page in enumerate(doc.pages):
         blocks = [["brk"]] if pno > 0 else []
         rblocks = [None] if pno > 0 else []
@@ -574,7 +750,10 @@ def classify(doc: rtfread.Doc, info):
             elif b.kind == "row":
                 texts = [rtfread.para_text(c) for c in b.cells]
                 role = None
-                for t in texts:
+                if name_headers and is_name_header(texts, name_headers):
+                    # documents with edge column names (laygen.edge_names): the row of the displayed columns' names
+                    role = ["colHeader", 0]
+                for t in (texts if role is None else ()):
                     m = _DATA.match(t)
                     if m:
                         role = ["data", int(m.group(1))]
